@@ -17,14 +17,16 @@ RepLens == 0..6
 RepZst  == {0, 1, 3, 127, 128, 253, 255}
 
 Vec(o, z, l, x, y) == [m |-> "SliceIndex", op |-> o, zst |-> z, len |-> l, a |-> x, b |-> y, exp |-> Ref(o, l, x, y)]
-Vectors ==
-    {Vec(o, 0, l, x, 0) : o \in Ops1, l \in RepLens, x \in Rep}
-      \cup {Vec(o, 0, l, x, y) : o \in Ops2, l \in RepLens, x \in Rep, y \in Rep}
-      \cup {Vec(o, 0, l, x, 0) : o \in OpsN, l \in 0..25, x \in Ns}
-      \cup {Vec(o, z, l, 0, 0) : o \in Ops0, z \in {0, 1}, l \in 0..6}
-      \cup {Vec(o, 1, l, 0, 0) : o \in Ops0, l \in RepZst}
-      \cup {Vec(o, 1, l, x, 0) : o \in Ops1, l \in RepZst, x \in Rep}
-      \cup {Vec(o, 1, l, x, y) : o \in Ops2, l \in RepZst, x \in Rep, y \in Rep}
-      \cup {Vec(o, 1, l, x, 0) : o \in OpsN, l \in 0..13, x \in Ns}
-Emit == ndJsonSerialize(IOEnv.OUT, SetToSeq(Vectors))
+\* keys are homogeneous tuples (cheap to normalise); the records are built as a sequence
+Keys ==
+    {<<o, 0, l, x, 0>> : o \in Ops1, l \in RepLens, x \in Rep}
+      \cup {<<o, 0, l, x, y>> : o \in Ops2, l \in RepLens, x \in Rep, y \in Rep}
+      \cup {<<o, 0, l, x, 0>> : o \in OpsN, l \in 0..25, x \in Ns}
+      \cup {<<o, z, l, 0, 0>> : o \in Ops0, z \in {0, 1}, l \in 0..6}
+      \cup {<<o, 1, l, 0, 0>> : o \in Ops0, l \in RepZst}
+      \cup {<<o, 1, l, x, 0>> : o \in Ops1, l \in RepZst, x \in Rep}
+      \cup {<<o, 1, l, x, y>> : o \in Ops2, l \in RepZst, x \in Rep, y \in Rep}
+      \cup {<<o, 1, l, x, 0>> : o \in OpsN, l \in 0..13, x \in Ns}
+Emit == LET ks == SetToSeq(Keys) IN
+        ndJsonSerialize(IOEnv.OUT, [q \in 1..Len(ks) |-> Vec(ks[q][1], ks[q][2], ks[q][3], ks[q][4], ks[q][5])])
 =============================================================================
